@@ -76,6 +76,19 @@ func (e *Eng) indexCalls() {
 	})
 }
 
+func (c *Contract) callsitesFor(exact string) []CallsiteClause {
+	if c == nil {
+		return nil
+	}
+	var out []CallsiteClause
+	for _, cc := range c.Callsites {
+		if cc.Callee == exact {
+			out = append(out, cc)
+		}
+	}
+	return out
+}
+
 func (e *Eng) callsiteClauses(key string) []CallsiteClause {
 	if e.con == nil {
 		return nil
@@ -215,6 +228,8 @@ func (e *Eng) evalCallInner(st *State, call *ast.CallExpr) []*Val {
 			}
 		}
 	}
+	e.lockEvent(st, key, recvExpr, call)
+	e.lockCallCheck(st, key, recvExpr, call)
 	cls, text := e.anchorClauses(call)
 	if sig == nil {
 		e.gap("call of unknown kind %s", e.src(call))
@@ -307,6 +322,18 @@ func (e *Eng) evalCallInner(st *State, call *ast.CallExpr) []*Val {
 		g := e.evalSpec(st, c.Expr, senv(), e.oldEnv)
 		e.oblige(st, "callsite", shortKey(key)+" "+c.Src, g.T, call.Pos())
 	}
+	if strings.HasPrefix(key, "dyn:") {
+		// a call of a function value is also addressed by the value's named type (`callsite type=graphql.ResponseHandler: requires …`):
+		// the variable's name is incidental
+		if nt, ok := types.Unalias(e.info.TypeOf(fun)).(*types.Named); ok && nt.Obj().Pkg() != nil {
+			tkey := "type=" + nt.Obj().Pkg().Name() + "." + nt.Obj().Name()
+			for _, c := range e.con.callsitesFor(tkey) {
+				g := e.evalSpec(st, c.Expr, senv(), e.oldEnv)
+				e.oblige(st, "callsite", tkey+" "+c.Src, g.T, call.Pos())
+			}
+			st.counters[tkey] = fmt.Sprintf("(+ %s 1)", counterOf(st, tkey))
+		}
+	}
 	// counters
 	st.counters[key] = fmt.Sprintf("(+ %s 1)", counterOf(st, key))
 
@@ -344,13 +371,27 @@ func (e *Eng) evalCallInner(st *State, call *ast.CallExpr) []*Val {
 			e.entrySyms = append(e.entrySyms, paramSym(nm, rv))
 		}
 	}
-	if (con == nil || !(con.NoPanic || con.NoEscape || con.AssumeNoPanic)) && !(e.con != nil && e.con.NoPanic) {
+	siteNoPanic := false
+	for _, c := range cls {
+		if c.Kind == "assumenopanic" {
+			siteNoPanic = true
+			e.gap("ASSUME no panic at `%s`: %s", text, c.Src)
+		}
+	}
+	if (con == nil || !(con.NoPanic || con.NoEscape || con.AssumeNoPanic)) && !(e.con != nil && e.con.NoPanic) && !siteNoPanic {
 		// fork an exceptional path
 		ps := st.clone()
 		ps.panicking = true
 		e.havocHeap(ps)
 		e.havocAddrTaken(ps, call)
-		e.exits = append(e.exits, Exit{Kind: ExitPanic, St: ps, Pos: call.Pos()})
+		// the exit is labelled with what raised the panic (a function value by its named type: the variable's name is incidental)
+		lbl := shortKey(key)
+		if strings.HasPrefix(key, "dyn:") {
+			if nt, ok := types.Unalias(e.info.TypeOf(fun)).(*types.Named); ok && nt.Obj().Pkg() != nil {
+				lbl = "type=" + nt.Obj().Pkg().Name() + "." + nt.Obj().Name()
+			}
+		}
+		e.exits = append(e.exits, Exit{Kind: ExitPanic, St: ps, Pos: call.Pos(), Label: lbl})
 	}
 	// address-taken locals passed as &x may be overwritten by the callee
 	defer e.havocAddrTaken(st, call)
